@@ -239,6 +239,58 @@ def rule_try_never_panics_on_alloc(ctx, rule="C05-trynopanic"):
     ctx.need(rule, "crate", "try-entry-points", n >= 10, "only %d try_* entry points" % n, how="%d try_* entry points" % n)
 
 
+# Err here is not a refused allocation: one line of reason each
+NOT_AN_ALLOCATION = {
+    "LeanString::from_static_str": "const fn; Repr::from_static_str fails only for a text longer than the length word holds, and the documented panic is `text is too long`",
+}
+
+
+def rule_error_reaches_panic(ctx, rule="C05-errsink"):
+    """a function that cannot report a ReserveError (its return type does not carry one) and still
+    calls a fallible operation hands the Result to the unwrap helper - the message panic is the only
+    other way out.  Pre-sizing hints (try_reserve / try_with_capacity whose failure is deliberately
+    ignored) are the listed exception.  Anything else turns "the allocator refused" into a different
+    error, a default value or silence."""
+    from r_own import _expr_calls
+    F = ctx.F
+    uw, panic_fn = find_unwrap_helper(F)
+    sinks = {x for x in (uw, panic_fn) if x}
+    hint = ("LeanString::try_reserve", "LeanString::try_with_capacity")
+    n = 0
+    for path, b in F.bodies.items():
+        # (the storage layer hands its Results upwards, or sits behind an audited `unreachable_unchecked`
+        # where an Err contradicts an invariant - C20-unchecked; this rule is about the layers above)
+        if path.startswith("repr::") or path.startswith("<repr::"):
+            continue
+        out = (b.local_ty(0) or "") + " " + ((F.fns.get(path) or {}).get("output") or "")
+        if "ReserveError" in out or "ToLeanStringError" in out or path in sinks or path in NOT_AN_ALLOCATION:
+            continue
+        for bb, t in b.calls():
+            d = t.get("dest")
+            if not d or d.get("p") or bb not in b.reachable(0):
+                continue
+            ty = b.local_ty(d["l"]) or ""
+            if "errors::reserve_error::ReserveError" not in ty or "Result<" not in ty:
+                continue
+            nm = callee_name(t)
+            if nm in hint or nm in sinks:
+                continue
+            # a projection / combinator step on such a Result (`.map(..)`, `Try::branch`) is judged by
+            # what consumes its own result; the chain has to end in the unwrap helper
+            n += 1
+            reached = False
+            for bb2, t2 in b.calls():
+                if callee_name(t2) in sinks and t2["args"] and bb in _expr_calls(b.origin_operand(t2["args"][0])):
+                    reached = True
+            later = [bb2 for bb2, t2 in b.calls() if bb2 != bb and t2["args"] and "ReserveError" in (b.local_ty(t2["dest"]["l"]) or "") and not t2["dest"]["p"]
+                     and any(bb in _expr_calls(b.origin_operand(a)) for a in t2["args"])]
+            if later:
+                continue      # flows into another Result-typed step, which is examined itself
+            ctx.ob(rule, path, "error-reaches-the-message-panic:" + nm.rsplit("::", 1)[-1], reached, line=t.get("line"), how="Result handed to the unwrap helper",
+                   detail="%s cannot return a ReserveError, and the Result of %s does not reach the unwrap helper: a refused allocation becomes something else than the documented panic" % (path, nm))
+    ctx.need(rule, "crate", "fallible-calls-in-non-reporting-functions", n >= 5, "only %d such calls" % n, how="%d calls" % n)
+
+
 # pre-sizing through the public API is a hint: every later write goes through the public, checked
 # operations, which reserve for themselves and report (Extend<char> ignores a refused size hint)
 HINT_OK = ("LeanString::try_reserve",)
